@@ -65,7 +65,7 @@ def order_for(path, all_fast=False):
     slow = ['C01', 'C13'] + [p for p in SLOW_IF_ANCHORED if p in anch]
     rest = [p for p in FAST if p not in first] if all_fast else []
     if all_fast == 'rest-only':
-        return [p for p in FAST if p not in first] + [p for p in ('C20',) if p not in slow]
+        return [p for p in FAST if p not in first] + [p for p in ('C10', 'C20', 'C11') if p not in slow]
     return first + slow + rest
 
 
